@@ -25,6 +25,7 @@ Tolerances: K (n+1) eps cond, cond = running max over orders k <= n of |p_k(x)| 
 recurrences carry), eps of the *input* dtype.  K was chosen from the measured worst ratio on the pinned tree over the
 whole thorough scope and seeds 0..3 (see MEASURED below) with a margin >= 30x.
 """
+import functools
 import json
 import math
 import os
@@ -186,15 +187,28 @@ def _refs(fn, pts):
 # ---------------------------------------------------------------------------------------------
 # point sets (first N32 of each are float32-exact)
 
-PTS_I = [-1.0, 1.0, 0.0, 0.5, -0.75, f32(1 / 3), f32(-0.3), f32(0.9), f32(0.999), f32(-0.97), 0.3, -2 / 3]
-PTS_H = [0.0, 0.5, -1.0, 3.0, f32(0.3), f32(1.7), f32(-2.6), f32(-4.2), 0.7, -1.9]
-PTS_L = [0.0, 0.5, 1.0, 6.0, f32(2.3), f32(0.1), f32(11.7), f32(25.3), 0.3, 3.3]
-PTS_D = [-2.0, -1.0, 0.0, 0.5, 2.0, f32(0.3), f32(1.7), f32(-2.6), 0.7, -1.3]
-PTS_U = [0.0, 1.0, 0.5, 0.25, 0.75, f32(0.1), f32(0.3), f32(0.7), f32(0.9), f32(0.99), 0.6, 1 / 3]
+_FIXED = {
+    'I': [-1.0, 1.0, 0.0, 0.5, -0.75, f32(1 / 3), f32(-0.3), f32(0.9), f32(0.999), f32(-0.97)],
+    'H': [0.0, 0.5, -1.0, 3.0, f32(0.3), f32(1.7), f32(-2.6), f32(-4.2)],
+    'L': [0.0, 0.5, 1.0, 6.0, f32(2.3), f32(0.1), f32(11.7), f32(25.3)],
+    'D': [-2.0, -1.0, 0.0, 0.5, 2.0, f32(0.3), f32(1.7), f32(-2.6)],
+    'U': [0.0, 1.0, 0.5, 0.25, 0.75, f32(0.1), f32(0.3), f32(0.7), f32(0.9), f32(0.99)],
+    'X': [-1.5, 1.0, 0.0, 0.5, -0.75, f32(1 / 3), f32(-0.3), f32(0.9), f32(1.2), f32(-0.97)],
+    'Y': [0.5, -1.0, 1.25, 0.0, f32(0.7), f32(-1.1), -0.25, f32(0.45), f32(-0.6), 1.0],
+    'HF': [1.0, 0.0, 0.5, -0.5, 0.25, f32(0.7), f32(0.3), 0.75, f32(-0.9), -1.0],
+}
+_RANGE = {'I': (-1, 1), 'H': (-3, 3), 'L': (0, 12), 'D': (-2.5, 2.5), 'U': (0, 1), 'X': (-1.5, 1.5), 'Y': (-1.5, 1.5), 'HF': (-1, 1)}
 PTS_T = [0.0, 0.5, 1.25, 3.0, -2.75, 0.375, 2.0, -1.5, 4.5, 0.125, 5.25, -0.625]     # dyadic: m*t exact in float32 too
-PTS_X = [-1.5, 1.0, 0.0, 0.5, -0.75, f32(1 / 3), f32(-0.3), f32(0.9), f32(1.2), f32(-0.97), 0.3, -2 / 3]
-PTS_Y = [0.5, -1.0, 1.25, 0.0, f32(0.7), f32(-1.1), -0.25, f32(0.45), f32(-0.6), 1.0, 0.9, 0.1]
-PTS_HF = [1.0, 0.0, 0.5, -0.5, 0.25, f32(0.7), f32(0.3), 0.75, f32(-0.9), -1.0, 0.3, 0.6]
+
+
+@functools.lru_cache(None)
+def pts(kind, seed):
+    """The fixed points (end points, 0, dyadic and float32-exact rationals) plus two seeded generic doubles of the domain."""
+    rng = np.random.default_rng([int(seed), sum(map(ord, kind))])
+    lo, hi = _RANGE[kind]
+    return _FIXED[kind] + [float(v) for v in rng.uniform(lo, hi, 2)]
+
+
 N32 = {'I': 10, 'H': 8, 'L': 8, 'D': 8, 'U': 10}
 
 
@@ -228,7 +242,7 @@ def run_jacobi(case, seed, R):
     a, b, N = case['alpha'], case['beta'], case['N']
     fam = f'jacobi[{jac_cls(a, b)}]'
     fa, fb = F(a), F(b)
-    sweep(R, fam, N, lambda n, x: pp.jacobi(n, a, b, x), _refs(lambda n, x: rp.jacobi(n, fa, fb, x), PTS_I), (PTS_I,), N32['I'])
+    sweep(R, fam, N, lambda n, x: pp.jacobi(n, a, b, x), _refs(lambda n, x: rp.jacobi(n, fa, fb, x), pts('I', seed)), (pts('I', seed),), N32['I'])
     x, w = sps.roots_jacobi(N + 1, a, b)
     gram(R, fam, N, lambda n, x: pp.jacobi(n, a, b, x), x, w, jacobi_h(N, a, b))
     R.outcome('jacobi')
@@ -242,29 +256,29 @@ def _fact(n):
 
 
 CLASSICAL = {
-    # name: (impl, exact ref, points, n32, quadrature(N) -> nodes, weights, h(n))
-    'legendre': (pp.legendre, rp.legendre, PTS_I, N32['I'], lambda N: sps.roots_legendre(N + 1), lambda n: 2.0 / (2 * n + 1)),
-    'cheby1': (pp.cheby1, rp.cheby1, PTS_I, N32['I'], lambda N: sps.roots_jacobi(N + 1, -.5, -.5), lambda n: math.pi if n == 0 else math.pi / 2),
-    'cheby2': (pp.cheby2, rp.cheby2, PTS_I, N32['I'], lambda N: sps.roots_jacobi(N + 1, .5, .5), lambda n: math.pi / 2),
-    'cheby3': (pp.cheby3, rp.cheby3, PTS_I, N32['I'], lambda N: sps.roots_jacobi(N + 1, -.5, .5), lambda n: math.pi),
-    'cheby4': (pp.cheby4, rp.cheby4, PTS_I, N32['I'], lambda N: sps.roots_jacobi(N + 1, .5, -.5), lambda n: math.pi),
-    'hermite_H': (pp.hermite_H, rp.hermite_H, PTS_H, N32['H'], lambda N: sps.roots_hermite(N + 1), lambda n: math.sqrt(math.pi) * 2.0 ** n * _fact(n)),
-    'hermite_He': (pp.hermite_He, rp.hermite_He, PTS_H, N32['H'], lambda N: sps.roots_hermitenorm(N + 1), lambda n: math.sqrt(2 * math.pi) * _fact(n)),
+    # name: (impl, exact ref, point-set kind, quadrature(N) -> nodes, weights, h(n))
+    'legendre': (pp.legendre, rp.legendre, 'I', lambda N: sps.roots_legendre(N + 1), lambda n: 2.0 / (2 * n + 1)),
+    'cheby1': (pp.cheby1, rp.cheby1, 'I', lambda N: sps.roots_jacobi(N + 1, -.5, -.5), lambda n: math.pi if n == 0 else math.pi / 2),
+    'cheby2': (pp.cheby2, rp.cheby2, 'I', lambda N: sps.roots_jacobi(N + 1, .5, .5), lambda n: math.pi / 2),
+    'cheby3': (pp.cheby3, rp.cheby3, 'I', lambda N: sps.roots_jacobi(N + 1, -.5, .5), lambda n: math.pi),
+    'cheby4': (pp.cheby4, rp.cheby4, 'I', lambda N: sps.roots_jacobi(N + 1, .5, -.5), lambda n: math.pi),
+    'hermite_H': (pp.hermite_H, rp.hermite_H, 'H', lambda N: sps.roots_hermite(N + 1), lambda n: math.sqrt(math.pi) * 2.0 ** n * _fact(n)),
+    'hermite_He': (pp.hermite_He, rp.hermite_He, 'H', lambda N: sps.roots_hermitenorm(N + 1), lambda n: math.sqrt(2 * math.pi) * _fact(n)),
 }
 
 
 def run_classical(case, seed, R):
     fam, N = case['family'], case['N']
     if fam in CLASSICAL:
-        impl, ref, pts, n32, quad, h = CLASSICAL[fam]
-        sweep(R, fam, N, impl, _refs(ref, pts), (pts,), n32)
+        impl, ref, kind, quad, h = CLASSICAL[fam]
+        sweep(R, fam, N, impl, _refs(ref, pts(kind, seed)), (pts(kind, seed),), N32[kind])
         x, w = quad(N)
         gram(R, fam, N, impl, x, w, [h(n) for n in range(N + 1)])
     elif fam == 'laguerre':
         a = case['alpha']
         fa = F(a)
         impl = lambda n, x: pp.laguerre(n, a, x)   # noqa
-        sweep(R, fam, N, impl, _refs(lambda n, x: rp.laguerre(n, fa, x), PTS_L), (PTS_L,), N32['L'])
+        sweep(R, fam, N, impl, _refs(lambda n, x: rp.laguerre(n, fa, x), pts('L', seed)), (pts('L', seed),), N32['L'])
         x, w = sps.roots_genlaguerre(N + 1, a)
         gram(R, fam, N, impl, x, w, [math.exp(math.lgamma(n + a + 1) - math.lgamma(n + 1)) for n in range(N + 1)])
     else:
@@ -272,7 +286,7 @@ def run_classical(case, seed, R):
         fa = F(a)
         f = pp.dickson1 if fam == 'dickson1' else pp.dickson2
         g = rp.dickson1 if fam == 'dickson1' else rp.dickson2
-        sweep(R, fam, N, lambda n, x: f(n, a, x), _refs(lambda n, x: g(n, fa, x), PTS_D), (PTS_D,), N32['D'])
+        sweep(R, fam, N, lambda n, x: f(n, a, x), _refs(lambda n, x: g(n, fa, x), pts('D', seed)), (pts('D', seed),), N32['D'])
     R.outcome(fam)
 
 
@@ -281,7 +295,7 @@ def run_classical(case, seed, R):
 
 def run_zernike(case, seed, R):
     am, norm, N = case['am'], case['norm'], case['N']
-    fr = [rp.frac(p) for p in PTS_U]
+    fr = [rp.frac(p) for p in pts('U', seed)]
     for m in ([0] if am == 0 else [am, -am]):
         trig = np.array([math.cos(m * t) if m >= 0 else math.sin(am * t) for t in PTS_T])
 
@@ -292,7 +306,7 @@ def run_zernike(case, seed, R):
                 rad = rad * math.sqrt(rp.zernike_norm2(n, m))
             return rad * trig, np.abs(rad)
         fam = f'zernike[{"m=0" if m == 0 else ("m>0" if m > 0 else "m<0")},{"norm" if norm else "raw"}]'
-        sweep(R, fam, (N - am) // 2, lambda k, r, t, m=m: pp.zernike_nm(am + 2 * k, m, r, t, norm=norm), ref, (PTS_U, PTS_T), N32['U'])
+        sweep(R, fam, (N - am) // 2, lambda k, r, t, m=m: pp.zernike_nm(am + 2 * k, m, r, t, norm=norm), ref, (pts('U', seed), PTS_T), N32['U'])
     R.outcome('zernike')
 
 
@@ -337,20 +351,20 @@ def run_zernike_gram(case, seed, R):
 
 def run_qcon(case, seed, R):
     N = case['N']
-    sweep(R, 'Qcon', N, pp.Qcon, _refs(rp.qcon, PTS_U), (PTS_U,), N32['U'])
+    sweep(R, 'Qcon', N, pp.Qcon, _refs(rp.qcon, pts('U', seed)), (pts('U', seed),), N32['U'])
     R.outcome('Qcon')
 
 
 def run_qbfs(case, seed, R):
     N = case['N']
-    fr = [rp.frac(p) for p in PTS_U]
+    fr = [rp.frac(p) for p in pts('U', seed)]
     cs, h = rp.qbfs_table(N)
 
     def ref(n):
         q = np.array([float(rp.horner(cs[n][:n + 1], x * x)) for x in fr]) / math.sqrt(h[n])
         pre = np.array([float(x * x * (1 - x * x)) for x in fr])
         return pre * q, pre * np.maximum(1.0, np.abs(q))
-    sweep(R, 'Qbfs', N, pp.Qbfs, ref, (PTS_U,), N32['U'])
+    sweep(R, 'Qbfs', N, pp.Qbfs, ref, (pts('U', seed),), N32['U'])
     # --- defining property on the implementation's own output: structure and slope orthonormality
     Nc = N + 5                                   # degree of g_n(s) = Qbfs_n(sqrt s) is n+2 <= N+2
     y = np.cos(np.pi * (np.arange(Nc) + 0.5) / Nc)
@@ -398,7 +412,7 @@ def run_q1(case, seed, R):
 
 def run_q2d(case, seed, R):
     am, N = case['am'], case['N']
-    fr = [rp.frac(p) for p in PTS_U]
+    fr = [rp.frac(p) for p in pts('U', seed)]
     if am == 0:
         cs, h = rp.qbfs_table(N)
         pre = np.array([float(x * x * (1 - x * x)) for x in fr])
@@ -412,7 +426,7 @@ def run_q2d(case, seed, R):
             q = np.array([float(rp.horner(cs[n][:n + 1], x * x)) for x in fr]) / math.sqrt(h[n])
             return pre * q * trig, pre * np.maximum(1.0, np.abs(q))
         fam = f'Q2d[{"m=0" if m == 0 else ("m=1" if m == 1 else ("m=-1" if m == -1 else ("m>1" if m > 0 else "m<-1")))}]'
-        sweep(R, fam, N, lambda n, r, t, m=m: pp.Q2d(n, m, r, t), ref, (PTS_U, PTS_T), N32['U'])
+        sweep(R, fam, N, lambda n, r, t, m=m: pp.Q2d(n, m, r, t), ref, (pts('U', seed), PTS_T), N32['U'])
     if am == 0:
         R.outcome('Q2d')
         return
@@ -461,17 +475,17 @@ def run_q2d(case, seed, R):
 
 def run_xy(case, seed, R):
     m, n = case['m'], case['n']
-    fx, fy = [rp.frac(p) for p in PTS_X], [rp.frac(p) for p in PTS_Y]
+    fx, fy = [rp.frac(p) for p in pts('X', seed)], [rp.frac(p) for p in pts('Y', seed)]
     vals = np.array([float(x ** m * y ** n) for x, y in zip(fx, fy)])
 
     def ref(_):
         return vals, np.abs(vals)
     cls = 'm=0' if m == 0 else 'm>0'
     cls += ',n=0' if n == 0 else ',n>0'
-    sweep(R, f'xy[{cls}]', 0, lambda _, x, y: pp.xy(m, n, x, y, cartesian_grid=False), ref, (PTS_X, PTS_Y), 10,
+    sweep(R, f'xy[{cls}]', 0, lambda _, x, y: pp.xy(m, n, x, y, cartesian_grid=False), ref, (pts('X', seed), pts('Y', seed)), 10,
           K=8 * (m + n + 1), orders=[0])
     # genuine cartesian grids
-    xv, yv = np.array(PTS_X), np.array(PTS_Y[:7])
+    xv, yv = np.array(pts('X', seed)), np.array(pts('Y', seed)[:7])
     X, Y = np.meshgrid(xv, yv)
     want = np.array([[float(x ** m * y ** n) for x in fx] for y in fy[:7]])
     for cg in (True, False):
@@ -484,14 +498,14 @@ def run_xy(case, seed, R):
 
 def run_hopkins(case, seed, R):
     a, b, c = case['a'], case['b'], case['c']
-    fr, fh = [rp.frac(p) for p in PTS_U], [rp.frac(p) for p in PTS_HF]
+    fr, fh = [rp.frac(p) for p in pts('U', seed)], [rp.frac(p) for p in pts('HF', seed)]
     trig = np.array([math.cos(a * t) if a >= 0 else math.sin(-a * t) for t in PTS_T])
     rad = np.array([float(r ** b * H ** c) for r, H in zip(fr, fh)])
 
     def ref(_):
         return rad * trig, np.abs(rad)
     cls = ('a<0' if a < 0 else ('a=0' if a == 0 else 'a>0'))
-    sweep(R, f'hopkins[{cls}]', 0, lambda _, r, t, H: pp.hopkins(a, b, c, r, t, H), ref, (PTS_U, PTS_T, PTS_HF), 10,
+    sweep(R, f'hopkins[{cls}]', 0, lambda _, r, t, H: pp.hopkins(a, b, c, r, t, H), ref, (pts('U', seed), PTS_T, pts('HF', seed)), 10,
           K=8 * (b + c + 2), orders=[0])
     R.outcome('hopkins')
 
@@ -499,10 +513,10 @@ def run_hopkins(case, seed, R):
 # ---------------------------------------------------------------------------------------------
 # history: cold == warm, bit for bit
 
-XH = np.array(PTS_I[:8])
-UH = np.array(PTS_U[:8])
+XH = np.array(_FIXED['I'][:8])
+UH = np.array(_FIXED['U'][:8])
 TH = np.array(PTS_T[:8])
-LH = np.array(PTS_L[:8])
+LH = np.array(_FIXED['L'][:8])
 
 
 def evaluate(cfg):
@@ -658,7 +672,7 @@ def plan(tier, seed):
     forms = 'every order is evaluated on a 1-D, a 2-D and a 3-D float64 array, as a python scalar at every point, and on a float32 array'
     return [
         ScopeUnit('jacobi', jac_cases, run_jacobi,
-                  f'every (alpha,beta) in {AB}^2 x every order n in [0..{N}] at {len(PTS_I)} points of [-1,1] (both end points, 0, dyadic, float32-exact and generic '
+                  f'every (alpha,beta) in {AB}^2 x every order n in [0..{N}] at 12 points of [-1,1] (both end points, 0, dyadic, float32-exact and generic '
                   f'rationals); {forms}; oracle: exact-rational explicit sum (DLMF 18.5.8) at the exact value of the point and of the parameters; plus the full '
                   f'(N+1)x(N+1) Gram matrix under the (N+1)-point Gauss-Jacobi rule against diag(h_n)', reset=reset_poly_caches, chunk=1),
         ScopeUnit('classical', cl_cases, run_classical,
@@ -666,18 +680,18 @@ def plan(tier, seed):
                   'oracle: each family\'s own explicit sum in exact rationals; Gram matrices under Gauss-Legendre/-Jacobi/-Hermite/-Laguerre rules of exact degree',
                   reset=reset_poly_caches, chunk=1),
         ScopeUnit('zernike', z_cases, run_zernike,
-                  f'every |m| in [0..{NZ}] x norm in {{True,False}}: every n in {{|m|,|m|+2,..}} <= {NZ}, both signs of m, at {len(PTS_U)} (r,t) points incl. r=0 and r=1, same '
+                  f'every |m| in [0..{NZ}] x norm in {{True,False}}: every n in {{|m|,|m|+2,..}} <= {NZ}, both signs of m, at 12 (r,t) points incl. r=0 and r=1, same '
                   'input forms; oracle: radial factorial formula (exact) x cos/sin(m t) x sqrt(2(n+1)/(1+delta_m0))', reset=reset_poly_caches, chunk=1),
         ScopeUnit('zernike_gram', zg_cases, run_zernike_gram,
                   f'all {(NZ + 1) * (NZ + 2) // 2} modes with n <= {NZ}: full Gram matrix (1/pi) int Z Z\' over the unit disk (Gauss-Legendre in r^2 x trapezoid in theta, exact): '
                   'unit RMS, mutual orthogonality; with and without norm', reset=reset_poly_caches, chunk=1),
         ScopeUnit('qcon_qbfs', [{'family': 'Qcon', **q_cases[0]}, {'family': 'Qbfs', **q_cases[0]}],
                   run_q1,
-                  f'Qcon and Qbfs, every order n in [0..{NQ}], {len(PTS_U)} points of [0,1], same input forms; oracle: u^4 P_n^(0,4)(2u^2-1) exact; Qbfs: exact-rational '
+                  f'Qcon and Qbfs, every order n in [0..{NQ}], 12 points of [0,1], same input forms; oracle: u^4 P_n^(0,4)(2u^2-1) exact; Qbfs: exact-rational '
                   'Gram-Schmidt under the slope inner product; plus, on the implementation\'s own output, degree / prefactor / sign structure and the slope Gram matrix '
                   '(Chebyshev interpolation + Gauss-Chebyshev, exact degree) == identity', reset=reset_poly_caches, chunk=1),
         ScopeUnit('q2d', q2_cases, run_q2d,
-                  f'every |m| in [0..{M2}], both signs, every n in [0..{N2}], {len(PTS_U)} (u,t) points, same input forms; oracle: exact-rational Gram-Schmidt under the gradient '
+                  f'every |m| in [0..{M2}], both signs, every n in [0..{N2}], 12 (u,t) points, same input forms; oracle: exact-rational Gram-Schmidt under the gradient '
                   'inner product x cos/sin(m t); plus radial structure and the gradient Gram matrix of the implementation\'s own output == identity', reset=reset_poly_caches, chunk=1),
         ScopeUnit('xy', xy_cases, run_xy,
                   'every (m,n) in [0..6]^2: scattered points (scalar, 1-D, 2-D, 3-D, float32; cartesian_grid=False), a genuine 7x12 meshgrid with cartesian_grid True and False, '
